@@ -128,6 +128,7 @@ func run(b *harness.B) {
 		runHugeContract(b)
 		if b.Batch == 1 {
 			runHostileAmounts(b)
+			runEndOfLife(b)
 		}
 	default:
 		runV4(b)
